@@ -8,6 +8,24 @@
 # rule: how cases are generated and what makes one non-trivial / distinct (copied into evidence)
 
 PROPS = {
+    "C11": {
+        "level": "exploration",
+        "rule": "TestC11CacheVsRebuild: two users on two go-git repositories sharing a bare remote, used only through "
+                "cache.RepoCache with handles re-resolved for every action: new bug, 1..3 edits of any kind then Commit, push, "
+                "pull, remove, SetCacheSize(1..3)+Resolve (eviction), close/reopen, new and renamed identities; free rapid lists "
+                "(6..36 actions) with planned segments inserted (diverged bug merged then edited, identity renamed elsewhere and "
+                "pulled, pull under a small cache, reopen after a pull). Oracle after EVERY action: copy the repository, delete "
+                "cache files, indexes and lock, build a fresh RepoCache there and compare with the live one: id sets, every bug and "
+                "identity excerpt field, resolved snapshots and identities, ValidLabels, a battery of 28 queries (as sets; order "
+                "for sort:id), full-text hits of every token planted in titles and comments, create-metadata and identity-metadata "
+                "lookups; plus: a commit through the cache never removes stored operations. TestC11ConcurrentBuild rebuilds a "
+                "populated cache hundreds of times (concurrent subcache builds). Non-trivial: the sequence has a pull updating an "
+                "existing entity, an eviction or a reopen. Distinct: action/edit-kind sequence.",
+        "assumptions": ["compared at points where nothing is staged but uncommitted", "bleve is compared with bleve (same analyser)",
+                        "handles are never kept across an eviction (see C18 known finding)"],
+        "tests": [{"name": "TestC11CacheVsRebuild", "quick": 24, "shards_quick": 4, "thorough": 150, "shards": 16},
+                  {"name": "TestC11ConcurrentBuild", "quick": None, "shards_quick": 4, "thorough": None, "shards": 8}],
+    },
     "C08": {
         "level": "exploration",
         "rule": "rapid generates identity version histories of 1..5 versions over a pool of deterministic OpenPGP keys (add / remove / "
@@ -189,6 +207,13 @@ PROPS = {
 
 # Text for MANIFEST.json, per claimed property.
 MANIFEST_TEXT = {
+    "C11": {
+        "technique": "stateful property-based testing (rapid) with a rebuild differential after every action; stress of the concurrent cache build",
+        "level_text": "Differential oracle: after each generated cache-level action everything the live cache serves is compared with a "
+                      "cache rebuilt from a copy of the git data. Exploration with shrinking of the action list.",
+        "design_ref": "DESIGN.md §4 C11",
+        "level_note": "Trusted: the rebuild path itself (it is the reference); directory copy as 'the git data'.",
+    },
     "C08": {
         "technique": "property-based testing (rapid): generated key histories x commit variants vs a reference key-validity function",
         "level_text": "Generated identity/key histories and signed, unsigned, foreign-signed and altered commits are judged by the real reader "
